@@ -134,6 +134,7 @@ func (c *Ctx) ruleFlagTable() {
 	c.check(strings.Join(docFlags, ",") == strings.Join(dn, ","), "FLAG-TABLE/DOCS", "config", "book/gogreement-docs/src/01_01_getting_started.md", "documented --config.* flags = defined flags", fmt.Sprintf("documented flags %v differ from defined flags %v", docFlags, dn))
 
 	// ---- the value each field gets from the flags: the returned New(...) in ParseFlagsFromFlagSet
+	nOther := 0
 	allInstrs(parse, func(b *ssa.BasicBlock, ins ssa.Instruction) {
 		r, ok := ins.(*ssa.Return)
 		if !ok || len(r.Results) != 1 {
@@ -141,7 +142,40 @@ func (c *Ctx) ruleFlagTable() {
 		}
 		call, ok := r.Results[0].(*ssa.Call)
 		if !ok || call.Call.StaticCallee() != newFn {
-			return // Empty() for nil flag set, FromEnv() in env-only mode
+			// a result that is not built from the flag values: right for a nil flag set only ("the flag if given")
+			nilSet := false
+			env := ""
+			for _, l := range P.BlockGuards(b) {
+				if v := nilCheckedValue(l); v != nil && l.Pos && v == ssa.Value(parse.Params[0]) {
+					nilSet = true
+				}
+				for _, x := range []ssa.Value{l.X, l.Y, l.Val} {
+					if x == nil {
+						continue
+					}
+					for _, rr := range P.Resolve(x) {
+						if ec, isCall := rr.(*ssa.Call); isCall && (P.CallTo(ec, "os.Getenv") != nil || P.CallTo(ec, "os.LookupEnv") != nil) {
+							env = constArg(ec.Call.Args[0])
+						}
+						if ex, isEx := rr.(*ssa.Extract); isEx {
+							if ec, isCall := ex.Tuple.(*ssa.Call); isCall && P.CallTo(ec, "os.LookupEnv") != nil {
+								env = constArg(ec.Call.Args[0])
+							}
+						}
+					}
+				}
+			}
+			nOther++
+			cons := fmt.Sprintf("config.ParseFlagsFromFlagSet#other%d", nOther)
+			if env != "" {
+				cons = "config.ParseFlagsFromFlagSet#under-" + env
+			}
+			if nilSet {
+				cons = "config.ParseFlagsFromFlagSet#nil-flagset"
+			}
+			c.check(nilSet, "FLAG-VALUE/ALL-PATHS", cons, P.Pos(r.Pos()), "without a flag set there are no flags: the empty configuration",
+				"a configuration that is not built from the flag values is returned although a flag set is given ("+short(P.Desc(r.Results[0]))+"): command-line flags are ignored on this path")
+			return
 		}
 		a := call.Call.Args
 		where := P.Pos(call.Pos())
@@ -362,6 +396,17 @@ func (c *Ctx) ruleParseHelpers() {
 					})
 					if !drop {
 						okAll, why = false, "empty items are not dropped"
+					}
+					// ... and nothing else is: "empty items dropped" is the only filter of the statement
+					for _, l := range P.BlockGuards(b) {
+						switch {
+						case l.Kind == "rangeloop" || l.Kind == "rangefunc":
+						case l.Kind == "lt" && l.Pos: // counting loop over the parts
+						case l.Kind == "cond" && l.Val == ssa.Value(fn.Params[1]):
+						case l.Kind == "eq" && (P.Desc(l.X) == `const("")` || P.Desc(l.Y) == `const("")`):
+						default:
+							okAll, why = false, "an item is also dropped under "+short(l.String())+" (only empty items may be dropped: the effective list is the list that was written)"
+						}
 					}
 				}
 			}
